@@ -11,8 +11,8 @@ Ltac ds s := destruct s as [?env ?tree ?paths ?tst ?watch ?flight ?pend ?istop ?
 (* call-by-need reduction of the record plumbing only (unfolding the setters naively is exponential) *)
 Ltac red_s :=
   lazy beta iota zeta delta
-    [do_fault do_upd do_wstart do_wselect do_fire do_begin do_finish do_istop
-     finish_cmd go_error before_hooks after_hooks apply_upd role_update status_update
+    [do_fault do_upd do_wstart do_wselect do_fire do_begin do_finish do_istop do_leafwrite do_reply
+     finish_cmd go_error before_hooks after_hooks apply_upd role_update status_update role_forward leaf_write
      add_pend add_log clear_log set_env set_tree set_tst set_watch set_flight set_pend
      set_istop set_rend set_rendc is_flying
      w_env w_tree w_paths w_tst w_watch w_flight w_pend w_istop w_rend w_rendc w_log] in *.
@@ -115,6 +115,64 @@ Proof.
         rewrite E. apply (IH p).
       - rewrite nth_error_replace_other by congruence. reflexivity. }
     destruct fwd; cbn [fst]; apply X.
+Qed.
+
+(* the same for the second half of an update alone: whatever the leaf's cache holds by now, the
+   ERROR it was called with is what goes up *)
+Lemma fwd_state_ERROR_crit : forall p t,
+  critp t p = true -> snd (fwd_state p ERROR t) = Some ERROR.
+Proof.
+  induction p as [|i p IH]; intros t H; unfold critp in H.
+  - cbn in H. destruct t as [c st x|st x cs]; [|discriminate]. cbn. rewrite H. reflexivity.
+  - destruct t as [c st x|st x cs].
+    + cbn in H. destruct i; discriminate.
+    + cbn [get_sub children] in H. cbn [fwd_state].
+      destruct (nth_error cs i) as [c|] eqn:E; [|discriminate].
+      specialize (IH c). unfold critp in IH. specialize (IH H).
+      destruct (fwd_state p ERROR c) as [c' fwd]. cbn in IH. subst fwd.
+      cbn. rewrite merge_state_ERROR_in. reflexivity.
+Qed.
+
+Lemma fwd_state_noncrit : forall p v t,
+  critp t p = false -> snd (fwd_state p v t) = None.
+Proof.
+  induction p as [|i p IH]; intros v t H; unfold critp in H.
+  - cbn in H. destruct t as [c st x|st x cs]; cbn; [rewrite H|]; reflexivity.
+  - destruct t as [c st x|st x cs]; [reflexivity|].
+    cbn [get_sub children] in H. cbn [fwd_state].
+    destruct (nth_error cs i) as [c|] eqn:E; [|reflexivity].
+    specialize (IH v c). unfold critp in IH. specialize (IH H).
+    destruct (fwd_state p v c) as [c' fwd]. cbn in IH. subst fwd. reflexivity.
+Qed.
+
+Lemma critp_fwd_state : forall q v t p, critp (fst (fwd_state q v t)) p = critp t p.
+Proof.
+  induction q as [|i q IH]; intros v t p.
+  - destruct t as [c st x|st x cs]; reflexivity.
+  - destruct t as [c st x|st x cs]; [reflexivity|].
+    cbn [fwd_state]. destruct (nth_error cs i) as [c|] eqn:E; [|reflexivity].
+    specialize (IH v c). destruct (fwd_state q v c) as [c' fwd] eqn:U. cbn [fst] in IH.
+    assert (X : forall s', critp (Agg s' x (replace_nth i c' cs)) p = critp (Agg st x cs) p).
+    { intro s'. unfold critp. destruct p as [|j p]; [reflexivity|]. cbn [get_sub children].
+      destruct (Nat.eq_dec j i) as [->|N].
+      - rewrite nth_error_replace_same by (apply nth_error_Some; congruence).
+        rewrite E. apply (IH p).
+      - rewrite nth_error_replace_other by congruence. reflexivity. }
+    destruct fwd; cbn [fst]; apply X.
+Qed.
+
+Lemma critp_write_leaf : forall q v t p, critp (map_at q (write_leaf_f v) t) p = critp t p.
+Proof.
+  induction q as [|i q IH]; intros v t p.
+  - cbn. destruct t as [c st x|st x cs]; [|reflexivity].
+    cbn. unfold critp. destruct p as [|j p]; cbn; [reflexivity|]. destruct j; reflexivity.
+  - destruct t as [c st x|st x cs]; [reflexivity|].
+    cbn [map_at]. destruct (nth_error cs i) as [c|] eqn:E; [|reflexivity].
+    unfold critp. destruct p as [|j p]; [reflexivity|]. cbn [get_sub children].
+    destruct (Nat.eq_dec j i) as [->|N].
+    + rewrite nth_error_replace_same by (apply nth_error_Some; congruence).
+      rewrite E. apply (IH v c p).
+    + rewrite nth_error_replace_other by congruence. reflexivity.
 Qed.
 
 (* ------------------------------------------------------------------ *)
@@ -289,13 +347,15 @@ Proof. intros E F R [I1 I2 I3 I4]. constructor; rewrite ?E, ?F, ?R; assumption. 
 
 Lemma Inv_step a s : Inv s -> Inv (wstep a s).
 Proof.
-  intro I. destruct a as [f|k| | |oc|e|oc|oc]; cbn [wstep].
+  intro I. destruct a as [f|k|k|j v| | |oc|e|oc|oc]; cbn [wstep].
   - (* AFault *) apply (Inv_same s); [| | |exact I]; ds s; destruct f; red_s; brk; reflexivity.
   - (* AUpd *) unfold do_upd. destruct (nth_error (w_pend s) k) as [u|]; [|exact I].
     apply (Inv_same s); [| | |exact I].
     + rewrite apply_upd_env. reflexivity.
     + rewrite apply_upd_flight. reflexivity.
     + rewrite apply_upd_rend. reflexivity.
+  - (* ALeafWrite *) apply (Inv_same s); [| | |exact I]; ds s; red_s; brk; reflexivity.
+  - (* AReply *) apply (Inv_same s); [reflexivity..|exact I].
   - (* AWStart *) apply (Inv_same s); [| | |exact I]; ds s; red_s; brk; reflexivity.
   - (* AWSelect *) apply (Inv_same s); [| | |exact I]; ds s; red_s; brk; reflexivity.
   - (* AFire *) unfold do_fire.
@@ -314,7 +374,6 @@ Proof.
       apply (Inv_same s); [reflexivity..|exact I].
     + apply Inv_go_error; [exact F|apply Inv_rempty_goerr; exact I].
   - (* AFinish *) unfold do_finish. destruct (w_flight s) as [e|] eqn:F; [|exact I].
-    destruct (is_configure e && _); [exact I|].
     destruct I as [I1 I2 I3 I4].
     apply Inv_finish_cmd.
     + reflexivity.
@@ -378,9 +437,11 @@ Proof.
   assert (F : w_flight s = None).
   { destruct (w_flight s) as [e|] eqn:F; [|reflexivity].
     pose proof (inv_flight s I e F) as X. rewrite E in X. symmetry in X. destruct (ev_src_not_error e X). }
-  destruct a as [f|k| | |oc|e|oc|oc]; cbn [wstep].
+  destruct a as [f|k|k|j v| | |oc|e|oc|oc]; cbn [wstep].
   - ds s; destruct f; red_s; brk; assumption.
   - unfold do_upd. destruct (nth_error _ k); [rewrite apply_upd_env|]; exact E.
+  - ds s; red_s; brk; assumption.
+  - exact E.
   - ds s; red_s; brk; assumption.
   - ds s; red_s; brk; assumption.
   - unfold do_fire. destruct (_ && _); [|exact E].
@@ -398,9 +459,11 @@ Qed.
 Lemma step_watch_timer a s :
   w_watch s = WTimer -> w_watch (wstep a s) = WTimer \/ w_env (wstep a s) = E_ERROR.
 Proof.
-  intro W. destruct a as [f|k| | |oc|e|oc|oc]; cbn [wstep].
+  intro W. destruct a as [f|k|k|j v| | |oc|e|oc|oc]; cbn [wstep].
   - left. ds s; destruct f; red_s; brk; assumption.
   - left. unfold do_upd. destruct (nth_error _ k); [|exact W]. apply apply_upd_watch_timer. exact W.
+  - left. ds s; red_s; brk; assumption.
+  - left. exact W.
   - left. ds s; red_s; subst; reflexivity.
   - left. ds s; red_s; subst; reflexivity.
   - unfold do_fire. destruct (_ && _); [|left; exact W].
@@ -410,7 +473,6 @@ Proof.
     + ds s. destruct e; red_s; brk; assumption.
     + rewrite go_error_watch. exact W.
   - left. unfold do_finish. destruct (w_flight s) as [e|]; [|exact W].
-    destruct (_ && _); [exact W|].
     unfold finish_cmd. destruct (res_ok _).
     + ds s. destruct e; red_s; assumption.
     + rewrite go_error_watch. ds s. red_s. assumption.
@@ -447,7 +509,8 @@ Proof.
 Qed.
 
 (* delivery: the state ERROR of a critical task, applied while the watcher is in its select, arms the timer *)
-Definition is_error_upd (u : pupd) (i : nat) : Prop := u = PState i ERROR \/ u = PRole i ERROR.
+Definition is_error_upd (u : pupd) (i : nat) : Prop :=
+  u = PState i ERROR \/ u = PRole i ERROR \/ u = PFwd i ERROR.
 
 Lemma delivered_arms s k u i :
   nth_error (w_pend s) k = Some u -> is_error_upd u i -> crit_of s i = true ->
@@ -457,8 +520,11 @@ Proof.
   rewrite crit_of_critp in C.
   destruct (nth_error (w_paths s) i) as [p|] eqn:P; [|discriminate].
   pose proof (upd_state_ERROR_crit p (w_tree s) C) as D.
-  destruct U as [->| ->]; ds s; red_s; subst; rewrite P;
-    destruct (upd_state p ERROR tree) as [t' fwd]; cbn in D; subst fwd; red_s; reflexivity.
+  pose proof (fwd_state_ERROR_crit p (w_tree s) C) as D'.
+  destruct U as [->|[->| ->]]; ds s; red_s; subst; rewrite P.
+  - destruct (upd_state p ERROR tree) as [t' fwd]; cbn in D; subst fwd; red_s; reflexivity.
+  - destruct (upd_state p ERROR tree) as [t' fwd]; cbn in D; subst fwd; red_s; reflexivity.
+  - destruct (fwd_state p ERROR tree) as [t' fwd]; cbn in D'; subst fwd; red_s; reflexivity.
 Qed.
 
 (* the fault puts such an update in flight for every victim *)
@@ -469,11 +535,12 @@ Proof.
   apply in_flat_map. exists i. split; [exact H|left; reflexivity].
 Qed.
 Lemma fault_internal_pends v s :
-  w_env s = E_RUNNING -> In (PRole v ERROR) (w_pend (wstep (AFault (FInternal v)) s)) /\
-                         w_istop (wstep (AFault (FInternal v)) s) = S (w_istop s).
+  In (PRole v ERROR) (w_pend (wstep (AFault (FInternal v)) s)) /\
+  (crit_of s v = true -> w_env s = E_RUNNING -> w_istop (wstep (AFault (FInternal v)) s) = S (w_istop s)).
 Proof.
-  intro E. cbn [wstep]. ds s. red_s. subst. cbn. split; [|reflexivity].
-  apply in_or_app. right. left. reflexivity.
+  cbn [wstep]. unfold do_fault. split.
+  - destruct (crit_of s v && estate_beq (w_env s) E_RUNNING); cbn; apply in_or_app; right; left; reflexivity.
+  - intros C E. rewrite C, E. reflexivity.
 Qed.
 
 Theorem ideal_partial s k u i sched :
@@ -494,9 +561,11 @@ Qed.
 
 Lemma step_rend_not_absent a s : w_rend s <> RAbsent -> w_rend (wstep a s) <> RAbsent.
 Proof.
-  intro R. destruct a as [f|k| | |oc|e|oc|oc]; cbn [wstep].
+  intro R. destruct a as [f|k|k|j v| | |oc|e|oc|oc]; cbn [wstep].
   - ds s; destruct f; red_s; brk; assumption.
   - unfold do_upd. destruct (nth_error _ k); [rewrite apply_upd_rend|]; exact R.
+  - ds s; red_s; brk; assumption.
+  - exact R.
   - ds s; red_s; brk; assumption.
   - ds s; red_s; brk; assumption.
   - unfold do_fire. destruct (_ && _); [|exact R].
@@ -507,7 +576,7 @@ Proof.
     + ds s. destruct e; red_s; brk; try assumption; discriminate.
     + rewrite go_error_rend. destruct (_ && _); [discriminate|exact R].
   - unfold do_finish. destruct (w_flight s) as [e|]; [|exact R].
-    destruct (_ && _); [exact R|]. unfold finish_cmd. destruct (res_ok _).
+    unfold finish_cmd. destruct (res_ok _).
     + ds s. destruct e; red_s; assumption.
     + rewrite go_error_rend. destruct (_ && _); [discriminate|]. ds s. red_s. assumption.
   - unfold do_istop. destruct (w_istop s); [exact R|]. destruct (is_flying s); [exact R|].
@@ -591,11 +660,12 @@ Qed.
 (* 6. Failures of non-critical tasks                                   *)
 (* ------------------------------------------------------------------ *)
 
-Definition internal_action (a : action) : bool :=
-  match a with AUpd _ | AWStart | AWSelect | AFire _ => true | _ => false end.
+(* the steps a failure sets off by itself (no request of a user, no further reply) *)
+Definition handler_action (a : action) : bool :=
+  match a with AUpd _ | ALeafWrite _ | AWStart | AWSelect | AFire _ | AIStop _ => true | _ => false end.
 
 Definition upd_noncrit (s : wsys) (u : pupd) : Prop :=
-  match u with PState i _ | PRole i _ => crit_of s i = false | PStatus _ _ => True end.
+  match u with PState i _ | PRole i _ | PFwd i _ => crit_of s i = false | PStatus _ _ => True end.
 
 Lemma crit_of_role_update j v s i : crit_of (role_update j v s) i = crit_of s i.
 Proof.
@@ -606,14 +676,47 @@ Proof.
   destruct fwd; cbn; destruct (nth_error (w_paths s) i); try reflexivity; apply X.
 Qed.
 
+Lemma crit_of_role_forward j v s i : crit_of (role_forward j v s) i = crit_of s i.
+Proof.
+  rewrite !crit_of_critp. unfold role_forward.
+  destruct (nth_error (w_paths s) j) as [p|] eqn:P; [|reflexivity].
+  pose proof (critp_fwd_state p v (w_tree s)) as X.
+  destruct (fwd_state p v (w_tree s)) as [t' fwd]. cbn [fst] in X.
+  destruct fwd; cbn; destruct (nth_error (w_paths s) i); try reflexivity; apply X.
+Qed.
+
+Lemma crit_of_leaf_write j v s i : crit_of (leaf_write j v s) i = crit_of s i.
+Proof.
+  rewrite !crit_of_critp. unfold leaf_write.
+  destruct (nth_error (w_paths s) j) as [p|] eqn:P; [|reflexivity].
+  cbn. destruct (nth_error (w_paths s) i); [|reflexivity]. apply critp_write_leaf.
+Qed.
+
 Lemma crit_of_apply_upd u s i : crit_of (apply_upd u s) i = crit_of s i.
 Proof.
-  destruct u as [j v|j v|j v]; cbn [apply_upd].
+  destruct u as [j v|j v|j v|j v]; cbn [apply_upd].
   - rewrite crit_of_role_update. reflexivity.
   - apply crit_of_role_update.
   - rewrite !crit_of_critp. unfold status_update.
     destruct (nth_error (w_paths s) j) as [p|] eqn:P; [|reflexivity].
     cbn. destruct (nth_error (w_paths s) i); [|reflexivity]. apply critp_upd_status.
+  - apply crit_of_role_forward.
+Qed.
+
+Lemma role_forward_noncrit_watch j v s : crit_of s j = false -> w_watch (role_forward j v s) = w_watch s.
+Proof.
+  intro C. rewrite crit_of_critp in C. unfold role_forward.
+  destruct (nth_error (w_paths s) j) as [p|] eqn:P; [|reflexivity].
+  pose proof (fwd_state_noncrit p v (w_tree s) C) as X.
+  destruct (fwd_state p v (w_tree s)) as [t' fwd]. cbn in X. subst fwd. reflexivity.
+Qed.
+
+Lemma In_replace_nth_cases {A} (x y : A) : forall k l, In x (replace_nth k y l) -> x = y \/ In x l.
+Proof.
+  induction k as [|k IH]; intros [|a l] H; cbn in *; try contradiction.
+  - destruct H as [<-|H]; [left; reflexivity|right; right; exact H].
+  - destruct H as [->|H]; [right; left; reflexivity|].
+    destruct (IH l H) as [->|H']; [left; reflexivity|right; right; exact H'].
 Qed.
 
 Lemma role_update_noncrit_watch j v s : crit_of s j = false -> w_watch (role_update j v s) = w_watch s.
@@ -634,65 +737,99 @@ Qed.
 Record Calm (e0 : estate) (s : wsys) : Prop := mkCalm {
   calm_env : w_env s = e0;
   calm_watch : w_watch s <> WTimer;
+  calm_started : w_watch s <> WNotStarted;
+  calm_istop : w_istop s = O;
   calm_pend : forall u, In u (w_pend s) -> upd_noncrit s u }.
 
 Lemma upd_noncrit_ext s s' u :
   (forall i, crit_of s' i = crit_of s i) -> upd_noncrit s u -> upd_noncrit s' u.
 Proof. intros X. destruct u; cbn; try rewrite X; auto. Qed.
 
-Lemma Calm_step e0 a s : internal_action a = true -> Calm e0 s -> Calm e0 (wstep a s).
+Lemma Calm_step e0 a s : handler_action a = true -> Calm e0 s -> Calm e0 (wstep a s).
 Proof.
-  intros A [E W P]. destruct a as [f|k| | |oc|e|oc|oc]; try discriminate; cbn [wstep].
+  intros A [E W S0 K0 P]. destruct a as [f|k|k|j v| | |oc|e|oc|oc]; try discriminate; cbn [wstep].
   - (* AUpd *) unfold do_upd. destruct (nth_error (w_pend s) k) as [u|] eqn:K; [|constructor; assumption].
     assert (U : upd_noncrit s u) by (apply P; eapply nth_error_In; exact K).
     set (s0 := set_pend (remove_nth k (w_pend s)) s).
     assert (C0 : forall i, crit_of s0 i = crit_of s i) by reflexivity.
+    assert (WW : w_watch (apply_upd u s0) = w_watch s).
+    { destruct u as [j v|j v|j v|j v]; cbn [apply_upd].
+      - rewrite role_update_noncrit_watch; [reflexivity|]. exact U.
+      - rewrite role_update_noncrit_watch; [reflexivity|]. exact U.
+      - unfold status_update. destruct (nth_error _ j); reflexivity.
+      - rewrite role_forward_noncrit_watch; [reflexivity|]. exact U. }
     constructor.
     + rewrite apply_upd_env. exact E.
-    + destruct u as [j v|j v|j v]; cbn [apply_upd].
-      * rewrite role_update_noncrit_watch; [exact W|]. exact U.
-      * rewrite role_update_noncrit_watch; [exact W|]. exact U.
-      * unfold status_update. destruct (nth_error _ j); exact W.
+    + rewrite WW. exact W.
+    + rewrite WW. exact S0.
+    + rewrite apply_upd_istop. exact K0.
     + rewrite apply_upd_pend. intros u' H'.
       apply (upd_noncrit_ext s).
       * intro i. rewrite crit_of_apply_upd. apply C0.
       * apply P. apply (In_remove_nth u' k). exact H'.
-  - (* AWStart *) ds s. red_s. constructor; brk; red_s; try assumption; try discriminate.
-    all: intros u H; specialize (P u H); destruct u; exact P.
-  - (* AWSelect *) ds s. red_s. constructor; brk; red_s; try assumption; try discriminate.
-    all: intros u H; specialize (P u H); destruct u; exact P.
+  - (* ALeafWrite *) unfold do_leafwrite.
+    destruct (nth_error (w_pend s) k) as [u|] eqn:K; [|constructor; assumption].
+    assert (U : upd_noncrit s u) by (apply P; eapply nth_error_In; exact K).
+    destruct u as [j v|j v|j v|j v]; try (constructor; assumption).
+    + constructor; try (unfold leaf_write; destruct (nth_error _ j); assumption).
+      intros u' H'.
+      apply (upd_noncrit_ext s); [intro i; rewrite crit_of_leaf_write; reflexivity|].
+      assert (H2 : In u' (replace_nth k (PFwd j v) (w_pend s)))
+        by (unfold leaf_write in H'; destruct (nth_error _ j); exact H').
+      destruct (In_replace_nth_cases _ _ _ _ H2) as [->|H3]; [exact U|apply P; exact H3].
+    + constructor; try (unfold leaf_write; destruct (nth_error _ j); assumption).
+      intros u' H'.
+      apply (upd_noncrit_ext s); [intro i; rewrite crit_of_leaf_write; reflexivity|].
+      assert (H2 : In u' (replace_nth k (PFwd j v) (w_pend s)))
+        by (unfold leaf_write in H'; destruct (nth_error _ j); exact H').
+      destruct (In_replace_nth_cases _ _ _ _ H2) as [->|H3]; [exact U|apply P; exact H3].
+  - (* AWStart: already started *) unfold do_wstart.
+    destruct (w_watch s) eqn:X; try (constructor; rewrite ?X; assumption). congruence.
+  - (* AWSelect *) unfold do_wselect.
+    destruct (w_watch s) eqn:X; try (constructor; rewrite ?X; assumption).
+    + constructor; try assumption; cbn; discriminate.
+    + constructor; try assumption; cbn; discriminate.
   - (* AFire *) unfold do_fire.
     destruct (wst_beq (w_watch s) WTimer) eqn:B; [apply wst_beq_eq in B; contradiction|].
     cbn [andb]. constructor; assumption.
+  - (* AIStop: no handler is waiting *) unfold do_istop. rewrite K0. constructor; assumption.
 Qed.
 
 Lemma Calm_run e0 sched : forall s,
-  forallb internal_action sched = true -> Calm e0 s -> Calm e0 (wrun sched s).
+  forallb handler_action sched = true -> Calm e0 s -> Calm e0 (wrun sched s).
 Proof.
   induction sched as [|a r IH]; intros s A C; [exact C|].
   cbn in A. apply andb_true_iff in A. destruct A as [A1 A2].
   cbn. apply IH; [exact A2|]. apply Calm_step; assumption.
 Qed.
 
-Theorem noncritical_inert s vs sched :
-  (forall i, In i vs -> crit_of s i = false) ->
+(* every kind of failure - terminal Mesos status, executor lost, agent lost, TASK_INTERNAL_ERROR - that
+   hits only non-critical tasks leaves the environment state alone and never arms the watcher,
+   whatever the order in which the updates, the watcher, the timer and the handlers run *)
+Theorem noncritical_inert s f sched :
+  (forall i, In i (fault_victims f) -> crit_of s i = false) ->
   (forall u, In u (w_pend s) -> upd_noncrit s u) ->
-  w_watch s <> WTimer ->
-  forallb internal_action sched = true ->
-  w_env (wrun sched (wstep (AFault (FDead vs)) s)) = w_env s /\
-  w_watch (wrun sched (wstep (AFault (FDead vs)) s)) <> WTimer.
+  w_watch s <> WTimer -> w_watch s <> WNotStarted -> w_istop s = O ->
+  forallb handler_action sched = true ->
+  w_env (wrun sched (wstep (AFault f) s)) = w_env s /\
+  w_watch (wrun sched (wstep (AFault f) s)) <> WTimer.
 Proof.
-  intros V P W A.
-  assert (C : Calm (w_env s) (wstep (AFault (FDead vs)) s)).
-  { cbn [wstep do_fault]. constructor.
-    - reflexivity.
-    - exact W.
-    - intros u H. cbn in H. apply in_app_or in H. destruct H as [H|H].
+  intros V P W S0 K0 A.
+  assert (C : Calm (w_env s) (wstep (AFault f) s)).
+  { cbn [wstep]. destruct f as [vs|v]; unfold do_fault.
+    - constructor; try assumption; try reflexivity.
+      intros u H. cbn in H. apply in_app_or in H. destruct H as [H|H].
       + specialize (P u H). destruct u; exact P.
       + apply in_flat_map in H. destruct H as [i [Hi Hu]].
         destruct Hu as [<-|[<-|[]]]; cbn; [|exact I].
-        change (crit_of s i = false). apply V. exact Hi. }
-  destruct (Calm_run (w_env s) sched _ A C) as [E W' _]. split; assumption.
+        change (crit_of s i = false). apply V. exact Hi.
+    - assert (Cv : crit_of s v = false) by (apply V; left; reflexivity).
+      rewrite Cv. cbn [andb].
+      constructor; try assumption; try reflexivity.
+      intros u H. cbn in H. apply in_app_or in H. destruct H as [H|H].
+      + specialize (P u H). destruct u; exact P.
+      + destruct H as [<-|[]]. cbn. exact Cv. }
+  destruct (Calm_run (w_env s) sched _ A C) as [E W' _ _ _]. split; assumption.
 Qed.
 
 (* ------------------------------------------------------------------ *)
@@ -704,11 +841,12 @@ Definition wit_tree : rtree := Agg STANDBY INACTIVE [Leaf true STANDBY INACTIVE;
 Definition wit_paths : list path := [[0%nat]; [1%nat]].
 Definition wit_created : wsys := created wit_tree wit_paths.
 
-(* (a) the critical task dies before the watcher goroutine has subscribed *)
-Definition wit_a_sched : list action := [AUpd 0; AUpd 0; AWStart; AWSelect].
+(* (a) the critical task dies before the watcher goroutine has subscribed (witness of the former
+   finding C03-a): the watcher now arms its timer at subscription *)
+Definition wit_a_sched : list action := [AUpd 0; AUpd 0; AWStart; AFire []].
 Lemma wit_a :
   let s := wrun wit_a_sched (wstep (AFault (FDead [0%nat])) wit_created) in
-  wquiet s = true /\ w_env s = E_CONFIGURED /\ w_watch s = WGone /\ st_of (w_tree s) = ERROR.
+  wquiet s = true /\ w_env s = E_ERROR /\ w_watch s = WFired /\ st_of (w_tree s) = ERROR.
 Proof. vm_compute. repeat split. Qed.
 
 (* (b1) the watcher has subscribed and read the workflow state but is not yet in its select *)
@@ -731,22 +869,24 @@ Lemma wit_b2 :
   wquiet s = true /\ w_env s = E_RUNNING /\ w_watch s = WWaiting /\ st_of (w_tree s) = ERROR.
 Proof. vm_compute. repeat split. Qed.
 
-(* (c) TASK_INTERNAL_ERROR of the non-critical task while RUNNING: the handler stops the run *)
+(* (c) TASK_INTERNAL_ERROR of the non-critical task while RUNNING (witness of the former finding
+   C03-c): the role goes to ERROR, the run goes on *)
 Definition wit_c_pre : list action := [AWStart; AWSelect; ABegin START; AFinish []; AUpd 0; AWSelect; AUpd 0].
-Definition wit_c_sched : list action := [AUpd 0; AIStop []; AUpd 0; AWSelect; AUpd 0].
+Definition wit_c_sched : list action := [AUpd 0; AIStop []].
 Lemma wit_c :
   let s0 := wrun wit_c_pre wit_created in
   let s := wrun wit_c_sched (wstep (AFault (FInternal 1%nat)) s0) in
   wquiet s0 = true /\ w_env s0 = E_RUNNING /\ crit_of s0 1%nat = false /\
-  wquiet s = true /\ w_env s = E_CONFIGURED.
+  wquiet s = true /\ w_env s = E_RUNNING /\ leaf_at (w_tree s) [1%nat] = Some (false, ERROR, ACTIVE).
 Proof. vm_compute. repeat split. Qed.
 
-(* (d) TASK_INTERNAL_ERROR of the critical task while CONFIGURED: nothing at all happens *)
+(* (d) TASK_INTERNAL_ERROR of the critical task while CONFIGURED (witness of the former finding
+   C03-d): the role goes to ERROR, the watcher takes it, the environment ends in ERROR *)
 Definition wit_d_pre : list action := [AWStart; AWSelect].
 Lemma wit_d :
   let s0 := wrun wit_d_pre wit_created in
-  let s := wstep (AFault (FInternal 0%nat)) s0 in
-  crit_of s0 0%nat = true /\ wquiet s = true /\ w_env s = E_CONFIGURED /\ s = s0.
+  let s := wrun [AUpd 0; AFire []] (wstep (AFault (FInternal 0%nat)) s0) in
+  crit_of s0 0%nat = true /\ w_env s0 = E_CONFIGURED /\ wquiet s = true /\ w_env s = E_ERROR.
 Proof. vm_compute. repeat split. Qed.
 
 (* a state that meets the hypotheses of the ideal theorem: RUNNING, watcher in its select, the
@@ -773,10 +913,6 @@ Definition full_statement : Prop :=
     wquiet (wrun sched (wstep (AFault f) s)) = true ->
     w_env (wrun sched (wstep (AFault f) s)) = E_ERROR.
 
-(* the steps a failure sets off by itself (no request of a user) *)
-Definition handler_action (a : action) : bool :=
-  match a with AUpd _ | AWStart | AWSelect | AFire _ | AIStop _ => true | _ => false end.
-
 Definition noncritical_full_statement : Prop :=
   forall s f sched,
     reachable s -> wquiet s = true ->
@@ -791,20 +927,96 @@ Proof.
   intros [t [paths [sc ->]]]. exists t, paths, (sc ++ sched). unfold wrun. rewrite fold_left_app. reflexivity.
 Qed.
 
+(* still false: the notification can be lost (C03-b, design level) *)
 Lemma full_statement_refuted : ~ full_statement.
 Proof.
   intro H.
-  specialize (H wit_created (FDead [0%nat]) 0%nat wit_a_sched (reachable_created _ _) eq_refl
+  specialize (H (wrun wit_b1_pre wit_created) (FDead [0%nat]) 0%nat wit_b1_sched
+                (reachable_run _ _ (reachable_created _ _)) eq_refl
                 (or_introl eq_refl) (or_introl eq_refl) eq_refl).
-  pose proof wit_a as [Q [E _]]. specialize (H Q). vm_compute in H. discriminate H.
+  pose proof wit_b1 as [Q [E _]]. specialize (H Q). vm_compute in H. discriminate H.
 Qed.
 
-Lemma noncritical_full_statement_refuted : ~ noncritical_full_statement.
+Lemma wquiet_fields s :
+  wquiet s = true -> w_pend s = [] /\ w_istop s = O /\ w_watch s <> WTimer /\ w_watch s <> WNotStarted.
 Proof.
-  intro H. pose proof wit_c as [Q0 [E0 [C0 [Q E]]]].
-  specialize (H (wrun wit_c_pre wit_created) (FInternal 1%nat) wit_c_sched
-                (reachable_run _ _ (reachable_created _ _)) Q0).
-  assert (V : forall i, In i (fault_victims (FInternal 1%nat)) -> crit_of (wrun wit_c_pre wit_created) i = false).
-  { intros i [<-|[]]. exact C0. }
-  specialize (H V eq_refl). vm_compute in H. discriminate H.
+  unfold wquiet. intro Q. repeat (apply andb_true_iff in Q; destruct Q as [Q ?]).
+  repeat split.
+  - destruct (w_pend s); [reflexivity|discriminate].
+  - apply Nat.eqb_eq. assumption.
+  - intro X. rewrite X in *. discriminate.
+  - intro X. rewrite X in *. discriminate.
+Qed.
+
+(* true since the repair of C03-c *)
+Lemma noncritical_full_statement_holds : noncritical_full_statement.
+Proof.
+  intros s f sched _ Q V A.
+  destruct (wquiet_fields s Q) as [P [K [W S0]]].
+  apply (noncritical_inert s f sched V); try assumption.
+  rewrite P. intros u [].
+Qed.
+
+(* ------------------------------------------------------------------ *)
+(* 9. The hand-over of a task role to its parent                       *)
+(* ------------------------------------------------------------------ *)
+
+(* what the translator counted in taskrole.go / callrole.go means: the parent gets the parameter *)
+Lemma leaf_handover_in_source : leaf_hands_incoming = true.
+Proof. vm_compute. reflexivity. Qed.
+
+(* the split is a refinement of the one-step update: writing the leaf and handing over at once is
+   RoleTree.upd_state *)
+Lemma upd_state_split : forall p v t,
+  upd_state p v t = fwd_state p v (map_at p (write_leaf_f v) t).
+Proof.
+  induction p as [|i p IH]; intros v t.
+  - destruct t as [c st x|st x cs]; reflexivity.
+  - destruct t as [c st x|st x cs]; [reflexivity|].
+    cbn [upd_state map_at]. destruct (nth_error cs i) as [c|] eqn:E.
+    + cbn [fwd_state].
+      rewrite nth_error_replace_same by (apply nth_error_Some; congruence).
+      rewrite <- IH. destruct (upd_state p v c) as [c' fwd].
+      rewrite replace_nth_twice. reflexivity.
+    + cbn [fwd_state]. rewrite E. reflexivity.
+Qed.
+
+(* the forced race of the harness on the witness workflow: RUNNING, t0 (critical) dies, its ERROR is
+   overtaken at the leaf by a late RUNNING reply, and still goes up: environment in ERROR although
+   the role of t0 reports RUNNING (the watcher's STOP cannot be delivered to the dead task) *)
+Lemma wit_race :
+  let s0 := wrun wit_ok_pre wit_created in
+  let s := run_sop (SRace 0%nat RUNNING [SendFail]) s0 in
+  w_env s0 = E_RUNNING /\ w_watch s0 = WWaiting /\
+  w_env s = E_ERROR /\ w_rend s = RSet /\ wquiet s = true /\
+  leaf_at (w_tree s) [0%nat] = Some (true, RUNNING, INACTIVE) /\ st_of (w_tree s) = ERROR.
+Proof. vm_compute. repeat split. Qed.
+
+(* ------------------------------------------------------------------ *)
+(* 10. A failure before the watcher has subscribed (repair of C03-a)   *)
+(* ------------------------------------------------------------------ *)
+
+Lemma wstart_on_error s :
+  w_watch s = WNotStarted -> st_of (w_tree s) = ERROR -> w_watch (wstep AWStart s) = WTimer.
+Proof. intros W R. cbn [wstep]. unfold do_wstart. rewrite W. cbn. rewrite R. reflexivity. Qed.
+
+(* the ERROR update of a critical task role leaves the root aggregator in ERROR *)
+Lemma root_error_after_crit_update p t :
+  is_agg t = true -> critp t p = true -> st_of (fst (upd_state p ERROR t)) = ERROR.
+Proof.
+  intros A C. destruct t as [c st x|st x cs]; [discriminate|].
+  destruct p as [|i p]; [discriminate|].
+  unfold critp in C. cbn [get_sub children] in C. cbn [upd_state].
+  destruct (nth_error cs i) as [c|] eqn:E; [|discriminate].
+  pose proof (upd_state_ERROR_crit p c) as D. unfold critp in D. specialize (D C).
+  destruct (upd_state p ERROR c) as [c' fwd]. cbn in D. subst fwd.
+  cbn. apply merge_state_ERROR_in.
+Qed.
+
+Theorem error_before_subscription s sched :
+  Inv s -> w_watch s = WNotStarted -> st_of (w_tree s) = ERROR ->
+  wquiet (wrun sched (wstep AWStart s)) = true -> w_env (wrun sched (wstep AWStart s)) = E_ERROR.
+Proof.
+  intros I W R Q. apply armed_ends_in_error; [apply Inv_step; exact I| |exact Q].
+  apply wstart_on_error; assumption.
 Qed.
